@@ -120,7 +120,10 @@ class Values:
             bad = ["RfDb", "Rf2(SgO4)3", "DbBhO2", "Xx2Rf",                             # more than one reason to reject
                    None, "", "Hx", "h2o", "H2O ", "(H2O", "H2O)", "2H", "Rf", "H0", "He2..3", "Water", "()", "H2O\x01", "\xc3\xa9", "(SiO2)0", "Ca(OH)0", "(H2O)0.0",
                    "H.", "Ca.O", "H2(SO4).", "Ca5(PO4)0F", "Si" * 150, "(" * 40 + "H" + ")" * 40]
-            out = r.sample(pool, min(len(pool), max(1, n // 3))) + r.sample(bad, min(len(bad), max(1, n // 3)))
+            if n >= 12:     # hand-picked members are all used, in a drawn order; only the generated ones are sampled
+                out = r.sample(pool, len(pool)) + r.sample(bad, len(bad))
+            else:
+                out = r.sample(pool, min(len(pool), max(1, n // 3))) + r.sample(bad, min(len(bad), max(1, n // 3)))
             for _ in range(max(1, n // 4)):     # single-character mutants of valid formulas
                 f = r.choice(pool)
                 k = r.randrange(len(f) + 1)
